@@ -49,6 +49,9 @@ package getoptions
 //@   ensures alias.exact {C05}: (entry in n.ChildOptions) ==> len(result) == 1 && result[0] == entry
 //@   ensures alias.sound {C05}: !(entry in n.ChildOptions) ==> (forall i int :: 0 <= i && i < len(result) ==> (result[i] in n.ChildOptions) && hasprefix(result[i], entry))
 //@   ensures alias.complete {C05,C08}: !(entry in n.ChildOptions) ==> (forall k string :: (k in n.ChildOptions) && hasprefix(k, entry) ==> inseq(k, result))
+//@   ensures alias.two {C05}: len(result) >= 2 ==> result[0] != result[1] && (result[0] in n.ChildOptions) && (result[1] in n.ChildOptions) && hasprefix(result[0], entry) && hasprefix(result[1], entry) && !(entry in n.ChildOptions)
+//@   ensures alias.one {C05}: len(result) == 1 && !(entry in n.ChildOptions) ==> (forall q string :: (q in n.ChildOptions) && hasprefix(q, entry) ==> q == result[0])
+//@   ensures alias.none {C05,C08}: len(result) == 0 ==> !(entry in n.ChildOptions) && (forall q string :: (q in n.ChildOptions) ==> !hasprefix(q, entry))
 //@   ensures alias.distinct {C05,C20}: forall i int, j int :: 0 <= i && i < j && j < len(result) ==> result[i] != result[j]
 //@   loop "for k := range n.ChildOptions"
 //@     invariant scan.sound: forall i int :: 0 <= i && i < len(matches) ==> (matches[i] in $seen) && (matches[i] in n.ChildOptions) && hasprefix(matches[i], entry)
@@ -161,6 +164,11 @@ package getoptions
 //@     && (c.OptType == option.StringRepeatType ==> isappend1(*c.pStringS, old_iter(*c.pStringS), v))
 //@     && (c.OptType == option.IntRepeatType && !IsRange(v) ==> isappend1(*c.pIntS, old_iter(*c.pIntS), atoi_val(v)))
 //@     && (c.OptType == option.Float64RepeatType ==> isappend1(*c.pFloat64S, old_iter(*c.pFloat64S), pf_val(v)))
+//@ spec func IsScalarOpt(c *option.Option) bool = IsStringKind(c.OptType) || IsIntKind(c.OptType) || IsFloatKind(c.OptType)
+//@ spec func ScalarIs(c *option.Option, v string) bool = (IsStringKind(c.OptType) ==> *c.pString == v)
+//@     && (IsIntKind(c.OptType) ==> *c.pInt == atoi_val(v)) && (IsFloatKind(c.OptType) ==> *c.pFloat64 == pf_val(v))
+//@ spec func ScalarSameLoop(c *option.Option) bool = *c.pString == old_loop(*c.pString) && *c.pInt == old_loop(*c.pInt) && *c.pFloat64 == old_loop(*c.pFloat64) && *c.pBool == old_loop(*c.pBool)
+//@ spec func ScalarSameIter(c *option.Option) bool = *c.pString == old_iter(*c.pString) && *c.pInt == old_iter(*c.pInt) && *c.pFloat64 == old_iter(*c.pFloat64) && *c.pBool == old_iter(*c.pBool)
 //@ spec func PassOrWarn(n *programTree) bool = n.unknownMode == Pass || n.unknownMode == Warn
 
 //@ func parseCLIArgs
@@ -221,12 +229,40 @@ package getoptions
 //@       && eqseq(currentProgramNode.ChildText, old_iter(currentProgramNode.ChildText)) && UnkSameIter(currentProgramNode)
 //@     step pair.resolved.called {C05,C06}: forall k string :: Resolves(currentProgramNode, p.Option, k) && !$returned
 //@       ==> currentProgramNode.ChildOptions[k].Called && currentProgramNode.ChildOptions[k].UsedAlias == k
+//@     step pair.scalar.attached {C01}: forall k string :: Resolves(currentProgramNode, p.Option, k) && !$returned && IsScalarOpt(currentProgramNode.ChildOptions[k]) && len(p.Args) == 1
+//@       ==> ScalarIs(currentProgramNode.ChildOptions[k], p.Args[0]) && iterator.idx == old_iter(iterator.idx)
+//@     step pair.scalar.detached {C01}: forall k string :: Resolves(currentProgramNode, p.Option, k) && !$returned && IsScalarOpt(currentProgramNode.ChildOptions[k])
+//@       && currentProgramNode.ChildOptions[k].MinArgs == 1 && len(p.Args) == 0
+//@       ==> iterator.idx == old_iter(iterator.idx) + 1 && !LooksLikeOption(args[iterator.idx]) && ScalarIs(currentProgramNode.ChildOptions[k], args[iterator.idx])
+//@     step pair.scalar.error {C01}: forall k string :: Resolves(currentProgramNode, p.Option, k) && $returned && IsScalarOpt(currentProgramNode.ChildOptions[k])
+//@       ==> result2 != nil && ScalarSameIter(currentProgramNode.ChildOptions[k])
+//@     step pair.scalar.missing {C01}: forall k string :: Resolves(currentProgramNode, p.Option, k) && IsScalarOpt(currentProgramNode.ChildOptions[k])
+//@       && currentProgramNode.ChildOptions[k].MinArgs == 1 && len(p.Args) == 0
+//@       && (old_iter(iterator.idx) + 1 >= len(args) || LooksLikeOption(args[old_iter(iterator.idx) + 1]))
+//@       ==> $returned && erris(result2, ErrorParsing)
+//@     step pair.optional.novalue {C01,C04}: forall k string :: Resolves(currentProgramNode, p.Option, k) && IsScalarOpt(currentProgramNode.ChildOptions[k])
+//@       && currentProgramNode.ChildOptions[k].MinArgs == 0 && len(p.Args) == 0
+//@       && (old_iter(iterator.idx) + 1 >= len(args) || LooksLikeOption(args[old_iter(iterator.idx) + 1]) || args[old_iter(iterator.idx) + 1] == "--")
+//@       ==> !$returned && iterator.idx == old_iter(iterator.idx) && ScalarSameIter(currentProgramNode.ChildOptions[k]) && currentProgramNode.ChildOptions[k].Called
+//@     step pair.optional.value {C01}: forall k string :: Resolves(currentProgramNode, p.Option, k) && !$returned && IsScalarOpt(currentProgramNode.ChildOptions[k])
+//@       && currentProgramNode.ChildOptions[k].MinArgs == 0 && len(p.Args) == 0
+//@       && old_iter(iterator.idx) + 1 < len(args) && !LooksLikeOption(args[old_iter(iterator.idx) + 1]) && args[old_iter(iterator.idx) + 1] != "--"
+//@       ==> iterator.idx == old_iter(iterator.idx) + 1 && ScalarIs(currentProgramNode.ChildOptions[k], args[iterator.idx])
+//@     step pair.flag.bool {C01}: forall k string :: Resolves(currentProgramNode, p.Option, k) && !$returned && currentProgramNode.ChildOptions[k].OptType == option.BoolType && len(p.Args) == 0
+//@       ==> *currentProgramNode.ChildOptions[k].pBool == !currentProgramNode.ChildOptions[k].boolDefault && iterator.idx == old_iter(iterator.idx)
+//@     step pair.flag.incr {C01}: forall k string :: Resolves(currentProgramNode, p.Option, k) && !$returned && currentProgramNode.ChildOptions[k].OptType == option.IncrementType
+//@       && old_iter(*currentProgramNode.ChildOptions[k].pInt) < 9223372036854775807
+//@       ==> *currentProgramNode.ChildOptions[k].pInt == old_iter(*currentProgramNode.ChildOptions[k].pInt) + 1 && iterator.idx == old_iter(iterator.idx)
 //@     step pair.resolved.frame {C05,C06}: forall k string :: Resolves(currentProgramNode, p.Option, k)
 //@       ==> OptsSameIterExcept(currentProgramNode.ChildOptions[k]) && eqseq(currentProgramNode.ChildText, old_iter(currentProgramNode.ChildText)) && UnkSameIter(currentProgramNode)
 //@   loop "for ; i < cOpt.MinArgs; i++"
 //@     modifies iterator.idx, *cOpt.pBool, *cOpt.pString, *cOpt.pInt, *cOpt.pFloat64, *cOpt.pStringS, *cOpt.pIntS, *cOpt.pFloat64S, mapof(MapOf(cOpt))
 //@     invariant min.idx: 0 <= iterator.idx && iterator.idx < len(args) && old_loop(iterator.idx) <= iterator.idx
 //@     invariant min.opt: OptOK(cOpt) && 0 <= i
+//@     invariant min.bound {C01,C02}: i <= cOpt.MinArgs || i == old_loop(i)
+//@     invariant min.count {C01,C02}: i - old_loop(i) == iterator.idx - old_loop(iterator.idx)
+//@     invariant min.last {C01}: (i > old_loop(i) ==> ScalarIs(cOpt, args[iterator.idx]) && !LooksLikeOption(args[iterator.idx])) && (i == old_loop(i) ==> ScalarSameLoop(cOpt))
+//@     invariant min.seq {C02}: cOpt.OptType == option.StringRepeatType ==> isconcat_range(*cOpt.pStringS, old_loop(*cOpt.pStringS), args, old_loop(iterator.idx) + 1, iterator.idx + 1)
 //@     decreases cOpt.MinArgs - i
 //@     step min.take {C01,C02}: !$exit ==> iterator.idx == old_iter(iterator.idx) + 1 && i == old_iter(i) + 1 && !LooksLikeOption(args[iterator.idx])
 //@     step min.saved {C01,C02}: !$exit ==> Stored(cOpt, args[iterator.idx])
@@ -237,6 +273,10 @@ package getoptions
 //@     modifies iterator.idx, *cOpt.pBool, *cOpt.pString, *cOpt.pInt, *cOpt.pFloat64, *cOpt.pStringS, *cOpt.pIntS, *cOpt.pFloat64S, mapof(MapOf(cOpt))
 //@     invariant max.idx: 0 <= iterator.idx && iterator.idx < len(args) && old_loop(iterator.idx) <= iterator.idx
 //@     invariant max.opt: OptOK(cOpt) && 0 <= i
+//@     invariant max.bound {C01,C02}: i <= cOpt.MaxArgs || i == old_loop(i)
+//@     invariant max.count {C01,C02}: i - old_loop(i) == iterator.idx - old_loop(iterator.idx)
+//@     invariant max.last {C01}: (i > old_loop(i) ==> ScalarIs(cOpt, args[iterator.idx]) && !LooksLikeOption(args[iterator.idx]) && args[iterator.idx] != "--") && (i == old_loop(i) ==> ScalarSameLoop(cOpt))
+//@     invariant max.seq {C02}: cOpt.OptType == option.StringRepeatType ==> isconcat_range(*cOpt.pStringS, old_loop(*cOpt.pStringS), args, old_loop(iterator.idx) + 1, iterator.idx + 1)
 //@     decreases cOpt.MaxArgs - i
 //@     step max.take {C02,C04}: !$exit ==> iterator.idx == old_iter(iterator.idx) + 1 && i == old_iter(i) + 1
 //@       && !LooksLikeOption(args[iterator.idx]) && args[iterator.idx] != "--" && Accepts(cOpt.OptType, args[iterator.idx])
